@@ -58,6 +58,7 @@ type KeyInfo struct {
 	sort string
 	kind string // field cell arr mdom mval ghost alloc visited
 	ref  string // "" | "ptr" | "slice": the stored values are references (closed-heap invariant)
+	valT string // type of the stored values
 }
 
 // Gen is one verification unit: a function under contract (with its inlined callees).
@@ -88,6 +89,7 @@ type Gen struct {
 	boxAx    map[string]bool
 	unsupported []string
 	ufs      map[string]ufDecl
+	allocKinds map[string]bool
 	ordinals map[string]int
 	obNames  map[string]int
 }
@@ -149,7 +151,15 @@ func (g *Gen) regKeyT(k, sort, kind string, valT types.Type) {
 	g.regKey(k, sort, kind)
 	ki := g.keys[k]
 	ki.ref = refKind(valT)
+	ki.valT = types.TypeString(valT, nil)
 	g.keys[k] = ki
+}
+
+// markAlloc records that objects referenced by values of type t are allocated inside this unit
+// (by the code itself or by a callee whose contract says so): only for such reference types can a
+// fresh reference be confused with a stored one, so only they need the closed-heap bound.
+func (g *Gen) markAlloc(t types.Type) {
+	g.allocKinds[types.TypeString(t, nil)] = true
 }
 
 // heapBound: closed-heap invariant for a fresh version `term` of heap key k: every reference stored
@@ -157,6 +167,9 @@ func (g *Gen) regKeyT(k, sort, kind string, valT types.Type) {
 func (g *Gen) heapBound(k, term, alloc string) {
 	ki := g.keys[k]
 	if ki.ref == "" {
+		return
+	}
+	if g.pass != 1 && !g.allocKinds[ki.valT] {
 		return
 	}
 	sel := func(x string) string {
@@ -461,6 +474,8 @@ type FnCtx struct {
 	preVals  map[ssa.Value]Val
 	callContracts map[ssa.Instruction]*Contract
 	funcVals []funcVal
+	privCells  []privCell
+	privDone   bool
 	debugNames map[string]Val
 	synthN   int
 	rangeN   int
@@ -602,4 +617,95 @@ func (fc *FnCtx) analyzeCFG() []*ssa.BasicBlock {
 
 func (fc *FnCtx) loopID(h *ssa.BasicBlock) string {
 	return fmt.Sprintf("%s%s#L%d", fc.prefix, relFuncName(fc.fn), fc.headers[h])
+}
+
+type privCell struct {
+	ref string
+	T   types.Type
+}
+
+// privateCells: memory cells of local / captured variables whose address never leaves this function
+// (not passed to a call, not stored in memory, not returned): code outside cannot modify them.
+func (fc *FnCtx) privateCells() []privCell {
+	if fc.privDone {
+		return fc.privCells
+	}
+	fc.privDone = true
+	escapes := map[ssa.Value]bool{}
+	mark := func(v ssa.Value) {
+		for {
+			switch x := v.(type) {
+			case *ssa.MakeInterface:
+				v = x.X
+				continue
+			case *ssa.ChangeType:
+				v = x.X
+				continue
+			}
+			break
+		}
+		escapes[v] = true
+	}
+	for _, b := range fc.fn.Blocks {
+		for _, ins := range b.Instrs {
+			switch x := ins.(type) {
+			case *ssa.Call:
+				for _, a := range x.Call.Args {
+					mark(a)
+				}
+			case *ssa.Defer:
+				for _, a := range x.Call.Args {
+					mark(a)
+				}
+			case *ssa.Go:
+				for _, a := range x.Call.Args {
+					mark(a)
+				}
+			case *ssa.Store:
+				mark(x.Val)
+			case *ssa.Return:
+				for _, r := range x.Results {
+					mark(r)
+				}
+			case *ssa.MapUpdate:
+				mark(x.Value)
+			case *ssa.Send:
+				mark(x.X)
+			}
+		}
+	}
+	add := func(v ssa.Value) {
+		if escapes[v] {
+			return
+		}
+		pt, ok := v.Type().Underlying().(*types.Pointer)
+		if !ok {
+			return
+		}
+		switch pt.Elem().Underlying().(type) {
+		case *types.Struct, *types.Array:
+			return
+		}
+		if val, ok := fc.vals[v]; ok {
+			fc.privCells = append(fc.privCells, privCell{ref: val.t, T: pt.Elem()})
+		}
+	}
+	for _, fv := range fc.fn.FreeVars {
+		add(fv)
+	}
+	return fc.privCells
+}
+
+// restorePrivate puts the contents of private cells back after a havoc.
+func (fc *FnCtx) restorePrivate(before *State) {
+	g := fc.g
+	for c := fc; c != nil; c = c.parent {
+		for _, pc := range c.privateCells() {
+			k := g.cellKey(pc.T)
+			if g.get(before, k) == g.get(fc.cur, k) {
+				continue
+			}
+			fc.cur.m[k] = g.def("st."+k, g.keys[k].sort, fmt.Sprintf("(store %s %s (select %s %s))", g.get(fc.cur, k), pc.ref, g.get(before, k), pc.ref))
+		}
+	}
 }
